@@ -61,3 +61,6 @@ impl<K, V> BTreeMap<K, V> {
 pub fn btree_index_g2<V: Copy>(m: &BTreeMap<usize, V>, k: &usize) -> (r: V)
     ensures m@.dom().contains(*k), r == m@[*k]
 { unimplemented!() }
+// ark_std::log2(x) = ceil(log2 x) for x >= 1 (and 0 for x = 0)
+#[verifier::external_body] pub fn log2_ceil(x: usize) -> (r: u32)
+    ensures r <= 64, x <= p2(r as nat), x > 1 ==> p2((r - 1) as nat) < x, x <= 1 ==> r == 0 { unimplemented!() }
